@@ -5,7 +5,7 @@ SCRATCH="$1"; shift
 cd "$(dirname "$0")"
 export GOFLAGS=-mod=mod GOPROXY=off GOSUMDB=off GOTOOLCHAIN=local
 mkdir -p "$SCRATCH/ov"
-if ! go run ./cmd/instr /repo "$(pwd)" "$SCRATCH/ov" > "$SCRATCH/instr.log" 2>&1; then
+if ! go run ./cmd/instr "${VERIF_REPO_DIR:-/repo}" "$(pwd)" "$SCRATCH/ov" > "$SCRATCH/instr.log" 2>&1; then
   cat "$SCRATCH/instr.log"; echo "BUILD-FAILED property=C20 (instrumentation)"; exit 2
 fi
 if ! go build -overlay "$SCRATCH/ov/overlay.json" -tags verif -o "$SCRATCH/check20" ./cmd/check20 > "$SCRATCH/build.log" 2>&1; then
